@@ -986,6 +986,49 @@ def effect(index, rep, sinfo, disp):
                       f"this setter does not write {sorted(missing)} which its siblings {sorted(set(names) - {n})[:3]} write: "
                       "choosing this value leaves those constants undefined or inherited from elsewhere",
                       loc=loc(SCEN, setters[n]["fn"]))
+    # documented: `all_resilient_foods_and_more_area` "also expands cropland", the other resilient-food sets do not - decided on the value
+    # the setter leaves in RATIO_INCREASED_CROP_AREA when it is evaluated (after the generic initialiser), helpers and store order included
+    from .symx import Interp as _IE, Obj as _OE, PDict as _PDE, explore as _exE, Abort as _AbE, Unsupported as _UnE
+    from .rat import Rat as _RatE
+    scls = index.cls(SCEN, "Scenarios")
+    n_sc = 0
+    for (okey, oval), sname in sorted(disp["setter_of"].items()):
+        if okey != "scenario":
+            continue
+        fn_s = methods[sname]
+        seeds = {}
+        final = None
+        for _ in range(6):
+            def run_s(it, fn_s=fn_s, seeds=seeds):
+                it.classes = {"Scenarios": scls}
+                o = _OE(scls, {"SCENARIO_SET": False, "scenario_description": "", "GENERIC_INITIALIZED_SET": False}, "self")
+                cfp = it.call_function(methods["init_generic_scenario"], [], {}, o)
+                if not isinstance(cfp, _PDE):
+                    raise _UnE("init_generic_scenario does not return the constants table", fn_s)
+                for k_, v_ in seeds.items():
+                    cfp.d.setdefault(k_, _PDE({}))
+                it.call_function(fn_s, [cfp], {}, o)
+                return cfp
+            try:
+                lv = [x for x in _exE(run_s, month_classes=False) if not isinstance(x[2], _AbE)]
+            except _UnE as e:
+                m_ = re.search(r"key '(\w+)' not in dict", str(e))
+                if m_ and m_.group(1) not in seeds:
+                    seeds[m_.group(1)] = True       # a nested table another option family creates first
+                    continue
+                lv = None
+            break
+        if not lv or len(lv) != 1:
+            rep.info(rule, f"scenario={oval}: setter outside the evaluated fragment (cropland expansion not decided)")
+            continue
+        final = lv[0][2].d.get("RATIO_INCREASED_CROP_AREA")
+        n_sc += 1
+        isnum = isinstance(final, _RatE) and final.is_const()
+        expands = isnum and final.const_value() > 1
+        want_exp = oval == "all_resilient_foods_and_more_area"
+        rep.check(isnum and expands == want_exp and (want_exp or final.const_value() == 1), rule, f"scenario={oval}:cropland {'expanded' if want_exp else 'not expanded'}",
+                  f"after {sname} the cultivated-area ratio is {final}: the documentation says this resilient-food set "
+                  f"{'also expands cropland (ratio > 1)' if want_exp else 'does not expand cropland (ratio 1)'}", loc=loc(SCEN, fn_s))
     # stated numbers
     for (key, val), want in STATED.items():
         sname = disp["setter_of"].get((key, val))
